@@ -37,7 +37,8 @@ def build(mt):
         if a is not None:
             rec['actrl'] = [[int(v) for v in a[x]] for x in range(len(c.lines))]
             ab = np.array(w.abuf)
-            rec['abuf'] = [[int(ab[k, p]) for p in range(mt['lanes'])] for k in range(ab.shape[0])]
+            # (when no evaluated line names an accumulator, abuf_len is 0 and abuf is a 1x1 placeholder: no accumulators)
+            rec['abuf'] = [[int(ab[k, p]) for p in range(mt['lanes'])] for k in range(ab.shape[0])] if int(w.abuf_len) > 0 else []
     except Exception as e:
         rec['raised'] = True
         rec['err'] = repr(e)[:300]
